@@ -71,15 +71,30 @@ int main(int argc, char** argv) {
   // --- get_property / config_get_string
   RimeConfig cfg = {0};
   api->config_init(&cfg);
+  // values: plain ASCII of every length, and UTF-8 text whose multi-byte characters
+  // (2, 3 and 4 bytes) fall on every cut position, so that a truncation routine that
+  // looks at character boundaries is exercised as well
+  static const char* kChars[] = {"\xe4\xb8\xad", "a", "\xf0\xa0\x80\x80", "\xc3\xa9"};
   for (size_t len = 0; len <= maxlen; ++len) {
+    std::vector<std::string> values;
     std::string v;
     for (size_t i = 0; i < len; ++i) v += static_cast<char>('a' + (i * 5 + len) % 26);
-    api->set_property(s, "verif_prop", v.c_str());
-    api->config_set_string(&cfg, "verif/key", v.c_str());
-    for (size_t n = 1; n <= maxsize; ++n) {
-      one("RimeGetProperty", v, n, [&](char* d, size_t k) { return api->get_property(s, "verif_prop", d, k) != 0; });
-      one("RimeConfigGetString", v, n,
-          [&](char* d, size_t k) { return api->config_get_string(&cfg, "verif/key", d, k) != 0; });
+    values.push_back(v);
+    for (size_t phase = 0; phase < 4 && len >= 2; ++phase) {
+      std::string u;
+      for (size_t k = phase; u.size() + strlen(kChars[k % 4]) <= len; ++k) u += kChars[k % 4];
+      while (u.size() < len) u += 'z';
+      if (u != v) values.push_back(u);
+    }
+    for (auto& val : values) {
+      api->set_property(s, "verif_prop", val.c_str());
+      api->config_set_string(&cfg, "verif/key", val.c_str());
+      for (size_t n = 1; n <= maxsize; ++n) {
+        if (&val != &values[0] && n > len + 2) break;  // UTF-8 variants: sizes around and below the length
+        one("RimeGetProperty", val, n, [&](char* d, size_t k) { return api->get_property(s, "verif_prop", d, k) != 0; });
+        one("RimeConfigGetString", val, n,
+            [&](char* d, size_t k) { return api->config_get_string(&cfg, "verif/key", d, k) != 0; });
+      }
     }
   }
   api->config_close(&cfg);
